@@ -396,6 +396,12 @@ fn cases(tier: Tier) -> Vec<Case> {
             push(&mut out, s(&[b, "-i16"]), s(&[piece, "-", "."]), b"", true);
         }
     }
+    // 4c. -f operands that are named pipes (size 0 in their metadata): read to end of file like any file
+    for b in ["", "--inplace", "--bc-int", "--ir-int"] {
+        push(&mut out, s(&[b]), s(&["-f", "p.fifo", PROBE_ORDER_B]), b"AB", false);
+        push(&mut out, s(&[b, "-i16"]), s(&["-f", "a.bf", "-f", "p.fifo", PROBE_ORDER_B]), b"", false);
+        push(&mut out, s(&[b]), s(&["-f", "u.fifo"]), b"AB", false);
+    }
     // 4b. help and a file that is not valid UTF-8
     for h in ["-h", "-help", "--help"] {
         push(&mut out, s(&[h]), s(&[PROBE_ECHO]), b"AB", false);
@@ -443,6 +449,9 @@ fn file_content(name: &str) -> Option<String> {
         "a.bf" => Some(PROBE_ORDER_A.to_string()),
         "b.bf" => Some(PROBE_ORDER_B.to_string()),
         "c.bf" => Some("comment é [-] ++++++++[>++++++++<-]>+.\n".to_string()),
+        // named pipes: a file whose reported size says nothing about its content
+        "p.fifo" => Some(PROBE_ORDER_A.to_string()),
+        "u.fifo" => Some(UNBALANCED_OPEN.to_string()),
         // bad.bf exists but is not valid UTF-8: reported like an unreadable file
         _ => None,
     }
@@ -462,7 +471,47 @@ fn judge(ctx: &mut WorkerCtx, dir: &str, case: &Case) {
     ctx.count("evaluations", 1);
     ctx.count("executions", 1);
     ctx.distinct(fnv(case.args.join("\u{1}").as_bytes()) ^ fnv(&case.stdin));
+    // named pipes given to -f: a feeder thread writes the content once the program opens the pipe (and gives
+    // up when the program has exited without ever opening it)
+    let done = std::sync::Arc::new(std::sync::atomic::AtomicBool::new(false));
+    let mut feeders = Vec::new();
+    for name in ["p.fifo", "u.fifo"] {
+        if !case.args.iter().any(|a| a == name) {
+            continue;
+        }
+        let path = format!("{dir}/{name}");
+        let _ = std::fs::remove_file(&path);
+        let cpath = std::ffi::CString::new(path.clone()).unwrap();
+        unsafe { libc::mkfifo(cpath.as_ptr(), 0o600) };
+        let content = file_content(name).unwrap();
+        let times = case.args.iter().filter(|a| *a == name).count();
+        let done = done.clone();
+        feeders.push(std::thread::spawn(move || {
+            let mut fed = 0;
+            while fed < times && !done.load(std::sync::atomic::Ordering::Relaxed) {
+                let fd = unsafe { libc::open(cpath.as_ptr(), libc::O_WRONLY | libc::O_NONBLOCK) };
+                if fd < 0 {
+                    std::thread::sleep(Duration::from_millis(1));
+                    continue;
+                }
+                unsafe {
+                    libc::write(fd, content.as_ptr() as *const libc::c_void, content.len());
+                    libc::close(fd);
+                }
+                fed += 1;
+                // let the reader see end of file before the pipe is offered again
+                std::thread::sleep(Duration::from_millis(20));
+            }
+        }));
+    }
     let (ran, exec_map) = run_cli(&case.args, &case.stdin, dir, case.strace);
+    done.store(true, std::sync::atomic::Ordering::Relaxed);
+    for f in feeders {
+        let _ = f.join();
+    }
+    for name in ["p.fifo", "u.fifo"] {
+        let _ = std::fs::remove_file(format!("{dir}/{name}"));
+    }
     let mut problems: Vec<String> = Vec::new();
     if ran.timed_out {
         problems.push("no exit within the time limit (output so far kept)".into());
@@ -595,7 +644,7 @@ pub fn info(tier: Tier) -> CheckInfo {
              printer whose byte count separates in-place / IR / bytecode budgets, echo of stdin, --static x width; (2) every print option \
              x level x width: exact printed IR / bytecode text (the level's only observable), machine code non-empty, exit 0, stdin \
              offset 0; (3) every ordered pair of conflicting flags per group (executor/print kind, width, level): last one wins; invalid \
-             and missing --limit / -f operands; (4) code placement: bare arguments that look like options (`--`, `---`, `-x`, `--dec`, `-O6` ...) between other code arguments, two args in both orders, file+arg, arg+file, two files, missing file, file that is not valid UTF-8, \
+             and missing --limit / -f operands; (4) code placement: -f operands that are named pipes, bare arguments that look like options (`--`, `---`, `-x`, `--dec`, `-O6` ...) between other code arguments, two args in both orders, file+arg, arg+file, two files, missing file, file that is not valid UTF-8, \
              unbalanced code, comment file, empty, the help flags — for every backend, flags before and after the code; (5) strace -e trace=mmap on 14 \
              backend-selecting shapes: an executable anonymous mapping appears iff the baseline JIT was selected. Probe separation is \
              recomputed through the library in every run. evaluations = process runs; distinct = distinct (argv, stdin).",
